@@ -119,3 +119,9 @@ From Scrapli Require Import ChanReadSrc.
 Theorem C06_chan_read_round_is_source : chan_read_table_ok = true.
 Proof. exact chan_read_round_is_source. Qed.
 Print Assumptions C06_chan_read_round_is_source.
+
+(* channel/write.go as translated: a write error reaches the operation in flight as the transport returned it: Channel.Write returns the transport's result, WriteAndReturn stops at a failed write *)
+From Scrapli Require Import WriteSrc.
+Theorem C06_write_is_source : write_src_ok = true.
+Proof. exact write_is_source. Qed.
+Print Assumptions C06_write_is_source.
